@@ -338,15 +338,22 @@ def valNonNull : Val → Option Val
   | .null => none
   | v => some v
 
+def valToReqType : Val → Option Bytes
+  | .text t => enumDecode Schema.requestTypeEnum t
+  | _ => none
+
+/-- GraphSyncPriority is a Go int32: bindnode stores any integer with `reflect.Value.SetInt`,
+    which truncates -/
+def valToPri (v : Val) : Option Int := (valToInt v).map wrap32
+
 def valToBReq : Val → Option BReq
   | .map kvs0 =>
     match canonKeys Schema.reqFields kvs0 with
     | none => none
     | some kvs =>
       match fieldOf Schema.req_id kvs valToBytes,
-            fieldOf Schema.req_requestType kvs (fun v => match valToText v with
-              | some t => enumDecode Schema.requestTypeEnum t | none => none),
-            fieldOf Schema.req_priority kvs (fun v => (valToInt v).map wrap32),
+            fieldOf Schema.req_requestType kvs valToReqType,
+            fieldOf Schema.req_priority kvs valToPri,
             fieldOf Schema.req_root kvs valToLink,
             fieldOf Schema.req_selector kvs valNonNull,
             fieldOf Schema.req_extensions kvs valToExts with
